@@ -1,4 +1,82 @@
-From Coq Require Import ZArith List Bool.
-From ExaV Require Import proofs.Proofs_Update.
-Theorem C08_placeholder : True. Proof. exact placeholder_true. Qed.
-Print Assumptions C08_placeholder.
+(* C08 - Malformed attributes never yield announced routes (RFC 7606).
+   Statements only; every proof is `exact <lemma>`; assumptions are printed.
+   dec_update is the REPAIRED generation of the decoder (Model_Update, fixed = true: proposed repairs R1-R6),
+   dec_update_pinned the pinned tree, on which the statements are refuted by concrete UPDATEs.
+   no_announce o: o is a NOTIFICATION (Refused), or an untyped exception of an abstracted value decoder
+   (PyError), or a decoded UPDATE with no announced route and the treat-as-withdraw mark; never End-of-RIB. *)
+From Coq Require Import ZArith Bool List.
+From ExaV Require Import gen.Gen_AttrTable gen.Gen_NlriRegistry model.Model_Nlri model.Model_Update spec.Spec_Wire
+  proofs.Proofs_Nlri proofs.Proofs_Update.
+Import ListNotations.
+Open Scope Z_scope.
+
+(* ---- an attribute whose declared length overruns the attribute block (or whose header is cut by the end of
+   the block: Spec_Wire.tlvs = None) is never accepted as a shorter attribute: for ALL byte strings b whose two
+   length fields fit, nothing is announced *)
+Theorem C08_no_overrun : forall opq s b wb ab nb,
+  sections b = Some (wb, ab, nb) -> tlvs (length ab) ab = None -> no_announce (dec_update opq s b).
+Proof. exact no_overrun. Qed.
+
+(* the pinned tree: COMMUNITY declaring 8 bytes with 4 left is decoded as one community, the route announced *)
+Theorem C08_no_overrun_refuted :
+  exists wb ab nb, sections w_overrun = Some (wb, ab, nb) /\ tlvs (length ab) ab = None
+  /\ announces (dec_update_pinned no_opq s_v4 w_overrun) = [(mkN 1 1 None [] [] 24 [10;1;2], [10;0;0;1])]
+  /\ aget (attrs_of (dec_update_pinned no_opq s_v4 w_overrun)) A_COMMUNITY = Some (mkA 8 192 (VBytes [253;232;0;1]))
+  /\ ahas (attrs_of (dec_update_pinned no_opq s_v4 w_overrun)) CODE_TREAT_AS_WITHDRAW = false.
+Proof. exact w_overrun_pinned. Qed.
+
+(* ---- RFC 7606, treat-as-withdraw types.  b: any byte string of bytes; l the TLVs of its attribute block; r the
+   first attribute carrying its code; its type one of ORIGIN, NEXT_HOP, MED, LOCAL_PREF, COMMUNITY, ORIGINATOR_ID,
+   CLUSTER_LIST, EXTENDED_COMMUNITY, IPV6_EXTENDED_COMMUNITY, LARGE_COMMUNITY; r malformed per RFC 7606 (Optional /
+   Transitive bits in conflict with the type, or the length / value rule of the type broken).  Then the session is
+   reset or nothing is announced.  (AS_PATH / AS4_PATH segment structure, the discard types and the MP attributes
+   are judged by the correspondence and the property oracle of harness/c08.py only.) *)
+Theorem C08_rfc7606 : forall opq s other b wb ab nb l r,
+  wfb b -> sections b = Some (wb, ab, nb) -> tlvs (length ab) ab = Some l ->
+  find_raw l (r_code r) = Some r -> In (r_code r) taw_codes ->
+  flags_conflict (r_code r) (r_flags r) || value_malformed other (s_asn4 s) (r_code r) (r_val r) = true ->
+  no_announce (dec_update opq s b).
+Proof. exact rfc7606_taw. Qed.
+
+(* whatever the bytes: a decoded UPDATE that carries the treat-as-withdraw mark announces nothing *)
+Theorem C08_treat_as_withdraw_announces_nothing : forall opq s b u,
+  dec_update opq s b = Decoded u -> has_taw (u_attrs u) = true -> u_ann u = [].
+Proof. exact taw_never_announces. Qed.
+
+(* the pinned tree (defect D5): a MED of length 3 is malformed for the reference, the mark is recorded, and the
+   route 10.1.2.0/24 is still announced; the repaired decoder reports it withdrawn *)
+Theorem C08_rfc7606_refuted :
+  verdict (fun _ _ => false) (rs_of s_v4) w_med3 = [1;0; 2;0; 3;0; 4;1]
+  /\ announces (dec_update_pinned no_opq s_v4 w_med3) = [(mkN 1 1 None [] [] 24 [10;1;2], [10;0;0;1])]
+  /\ ahas (attrs_of (dec_update_pinned no_opq s_v4 w_med3)) CODE_TREAT_AS_WITHDRAW = true.
+Proof. exact w_med3_pinned. Qed.
+
+(* the pinned tree: a COMMUNITY with the Optional bit cleared is dropped without a mark, the route is announced
+   without it; the repaired decoder announces nothing *)
+Theorem C08_wrong_flags_refuted :
+  verdict (fun _ _ => false) (rs_of s_v4) w_flags = [1;0; 2;0; 3;0; 8;1]
+  /\ announces (dec_update_pinned no_opq s_v4 w_flags) = [(mkN 1 1 None [] [] 24 [10;1;2], [10;0;0;1])]
+  /\ ahas (attrs_of (dec_update_pinned no_opq s_v4 w_flags)) CODE_TREAT_AS_WITHDRAW = false
+  /\ aget (attrs_of (dec_update_pinned no_opq s_v4 w_flags)) A_COMMUNITY = None
+  /\ announces (dec_update no_opq s_v4 w_flags) = [].
+Proof. exact w_flags_pinned. Qed.
+
+(* the pinned tree, discard class: a malformed AGGREGATOR is left out of the event but the whole UPDATE is kept
+   from Adj-RIB-In (read_message returns NOP); repaired, the route is stored *)
+Theorem C08_discard_drops_update_refuted :
+  exists u, dec_update_pinned no_opq s_v4 w_aggr = Decoded u /\ u_ann u <> [] /\ aget (u_attrs u) A_AGGREGATOR = None
+  /\ ribin_apply false [] u = [] /\ length (ribin_apply true [] u) = 1%nat.
+Proof. exact w_aggr_rib. Qed.
+
+(* non-vacuity: the MED witness meets the hypotheses of C08_rfc7606 on the repaired decoder, which withdraws the route *)
+Example C08_example :
+  exists u, dec_update no_opq s_v4 w_med3 = Decoded u /\ u_ann u = [] /\ u_wd u = [mkN 1 1 None [] [] 24 [10;1;2]].
+Proof. exact w_med3_fixed. Qed.
+
+Print Assumptions C08_no_overrun.
+Print Assumptions C08_no_overrun_refuted.
+Print Assumptions C08_rfc7606.
+Print Assumptions C08_treat_as_withdraw_announces_nothing.
+Print Assumptions C08_rfc7606_refuted.
+Print Assumptions C08_wrong_flags_refuted.
+Print Assumptions C08_discard_drops_update_refuted.
